@@ -21,6 +21,7 @@ sub `roundtrip` : Hypothesis-generated workflows (1-3 stages, layered variables,
 """
 from __future__ import annotations
 
+import copy
 import os
 import shutil
 
@@ -168,9 +169,43 @@ def _stated_keys(case):
     return keys
 
 
+def _without_last_stage(case):
+    """The same workflow without the components (and stage-scoped sections) of its last stage."""
+    last = max(c["stage"] for c in case["components"])
+    out = copy.deepcopy(case)
+    out["components"] = [c for c in out["components"] if c["stage"] < last]
+    for sect in ("vars", "blue"):
+        for scope in ("ds", "ps"):
+            out[sect][scope] = {s: v for s, v in out[sect][scope].items() if int(s) < last}
+    out["status"] = {s: v for s, v in out["status"].items() if int(s) < last}
+    for e in out["output"].values():
+        if "stages" in e:
+            e["stages"] = [x for x in e["stages"] if x < last]
+    out.pop("redump", None)
+    return out
+
+
 def check_case(case, ctx: Ctx, sub="roundtrip"):
+    loc = ctx.mkdtemp()
+    try:
+        nstages = 1 + max(c["stage"] for c in case["components"])
+        inst = _round(case, ctx, sub, loc, case)
+        if inst is not None and case.get("redump") and nstages >= 2 and case["mode"] in ("full", "sparse"):
+            # successive updates of the instance files in ONE directory: the second description has fewer stages
+            if _round(_without_last_stage(case), ctx, sub + "", loc, case, again=True) is not None:
+                ctx.rec.label("updated-in-place-with-fewer-stages")
+    finally:
+        shutil.rmtree(loc, ignore_errors=True)
+    if inst is None:
+        return
+    _coverage(case, ctx, sub, inst)
+
+
+def _round(case, ctx: Ctx, sub, loc, report_case, again=False):
+    """write -> load -> compare in <loc>/conf (which may hold the files of an earlier round). Returns the written
+    instance description, or None when the round ended early."""
     def _rep(sig, message):
-        _report(ctx, sig, message, case, sub)
+        _report(ctx, (sig + "@second-update") if again else sig, message, report_case, sub)
 
     import experiment.model.frontends.dosini as D
     import experiment.model.frontends.flowir as F
@@ -178,9 +213,8 @@ def check_case(case, ctx: Ctx, sub="roundtrip"):
 
     mode = case["mode"]
     platform = case["platform"]
-    loc = ctx.mkdtemp()
     conf = os.path.join(loc, "conf")
-    try:
+    if True:
         # 1. the description that will be written -------------------------------------------------------------
         if mode == "legacy":
             os.makedirs(conf)
@@ -205,7 +239,7 @@ def check_case(case, ctx: Ctx, sub="roundtrip"):
                 D.Dosini._dump_output(inst, conf)
         except Exception as e:
             _rep(_exc_sig("dump-raises", e), "mode=%s: Dosini.dump raised %r" % (mode, e))
-            return
+            return None
 
         # 3. load ---------------------------------------------------------------------------------------------
         load_errors = []
@@ -215,7 +249,7 @@ def check_case(case, ctx: Ctx, sub="roundtrip"):
         except Exception as e:
             _rep(_exc_sig("load-raises", e),
                     "mode=%s: loading the files written by Dosini.dump raised %r" % (mode, e))
-            return
+            return None
         if load_errors:
             ctx.rec.label("load-collected-errors")
 
@@ -225,7 +259,7 @@ def check_case(case, ctx: Ctx, sub="roundtrip"):
         ids_l = sorted(loaded.get_component_identifiers(recompute=True))
         if ids_w != ids_l:
             _rep("component-set-differs", "written %s, loaded %s" % (ids_w, ids_l))
-            return
+            return None
         for cid in ids_w:
             try:
                 a = written.get_component_configuration(cid, raw=False, include_default=True)
@@ -261,10 +295,12 @@ def check_case(case, ctx: Ctx, sub="roundtrip"):
         for path, x, y in _diff(_norm_output(written.get_output()), _norm_output(loaded.get_output())):
             _rep("output-differs:" + _strip_index(path).rsplit(".", 1)[-1],
                     "mode=%s: %s: written %r, loaded %r" % (mode, path, x, y))
-    finally:
-        shutil.rmtree(loc, ignore_errors=True)
+    return inst
 
-    # 5. coverage ---------------------------------------------------------------------------------------------
+
+def _coverage(case, ctx: Ctx, sub, inst):
+    mode = case["mode"]
+    platform = case["platform"]
     keys = _stated_keys(case)
     for k in keys:
         ctx.rec.cover("keys", k)
